@@ -1,6 +1,7 @@
 import IsoVerif.Driver.Core
 import IsoVerif.Model.Bed
 import IsoVerif.Model.Corrector
+import IsoVerif.Model.Illumina
 
 namespace IsoVerif.Driver.C14
 open Lean IsoVerif.Driver IsoVerif.Gen IsoVerif.Model IsoVerif.Model.C14
@@ -98,7 +99,37 @@ def ops : List (String × Handler) := [
       pure (Json.mkObj [
         ("known_event_types", ofList (fun (e : MatchEventSubtype) => ofStr e.name) corrector_known_event_types),
         ("flag_binding", ofList (fun (q : String × String) => Json.arr #[ofStr q.1, ofStr q.2]) correction_flag_binding),
-        ("default_strategy", ofList (fun (q : String × String) => Json.arr #[ofStr q.1, ofStr q.2]) correction_default_strategy)]))
+        ("default_strategy", ofList (fun (q : String × String) => Json.arr #[ofStr q.1, ofStr q.2]) correction_default_strategy)])),
+  -- IlluminaExonCorrector (Model/Illumina.lean)
+  ("ill_correct_exons", fun j => do
+      pure (match Illumina.correctExons (← jIvList (← arg j "short")) (← jIvList (← arg j "exons")) with
+        | none => jErr "index"
+        | some ex => ofIvList ex)),
+  ("ill_correct_exons_buggy", fun j => do
+      pure (match Illumina.correctExonsBuggy (← jIvList (← arg j "short")) (← jIvList (← arg j "exons")) with
+        | none => jErr "index"
+        | some ex => ofIvList ex)),
+  ("ill_corrected_introns", fun j => do
+      pure (ofIvList (Illumina.correctedIntronList (← jIvList (← arg j "short")) (← jInt (← arg j "start"))
+              (← jInt (← arg j "end")) (← jIvList (← arg j "introns"))))),
+  ("ill_prims", fun j => do
+      let l ← jIv (← arg j "left")
+      let r ← jIv (← arg j "right")
+      let o ← jIv (← arg j "old")
+      let sc ← jInt (← arg j "score")
+      pure (Json.mkObj [("skipped_score", ofInt (ill_skipped_score l r o)),
+                        ("better_skipped", ofBool (ill_better_skipped l r o sc)),
+                        ("right_length", ofBool (ill_right_length l r o)),
+                        ("one_differs", ofBool (ill_one_differs l r o)),
+                        ("site_distance", ofInt (ill_site_distance l r))])),
+  ("ill_constants", fun _ => do
+      pure (Json.mkObj [("MAX_SCORE", ofInt ill_MAX_SCORE), ("EXON_LENGTH", ofInt ill_EXON_LENGTH),
+                        ("SIDE_DIFF", ofInt ill_SIDE_DIFF), ("ABSENT_INTRON", ofIv ill_ABSENT_INTRON)])),
+  ("ill_short_introns", fun j => do
+      let files ← jList (jList (jPair jIv jInt)) (← arg j "files")
+      let counts := Illumina.mergeFiles files
+      pure (Json.mkObj [("short", ofIvList (Illumina.shortIntronsOf counts)),
+                        ("counts", ofList (fun (q : Iv × Int) => Json.arr #[ofIv q.1, ofInt q.2]) counts)]))
 ]
 
 end IsoVerif.Driver.C14
